@@ -20,7 +20,7 @@ RULE = ('For every (type, value) of universe slices LEAF, OF, CH, NEST and a str
         'up to 3, nested) at each string node of each string type, BOOLEAN FF -> {01,7F,80,FE}. Each rewrite is '
         'confirmed to denote the same value by the reference reader, then given to the DER decoder (all rewrites) '
         'and the CER decoder (BOOLEAN rewrites) with the guiding type and - where the type is self-describing - '
-        'without it; the decoder must raise PyAsn1Error. Non-trivial = a rewritten encoding; distinct = digest of '
+        'without it; the decoder must raise PyAsn1Error. The same rewrites of LEAF/OF/NEST cases are also placed inside an open type field (ANY, [3] EXPLICIT ANY, SET OF ANY, SEQUENCE OF ANY, governed by an INTEGER) that the DER/CER decoder resolves (decodeOpenTypes). Non-trivial = a rewritten encoding; distinct = digest of '
         '(bytes, decoder, spec).')
 ASSUMPTIONS = [
     'rewrites come from the reference encoder with exactly one non-default choice; the 0-deviation (DER) encoding '
@@ -116,6 +116,113 @@ def check_case(idx, sl, T, v, R):
     R.extra['executions'] += n
 
 
+OPEN_SHAPES = ('any', 'any-explicit', 'setof-any', 'seqof-any')
+
+
+def open_schema(shape, inner_spec):
+    from pyasn1.type import univ, namedtype, opentype, tag
+    if shape == 'any':
+        f = univ.Any()
+    elif shape == 'any-explicit':
+        f = univ.Any().subtype(explicitTag=tag.Tag(tag.tagClassContext, tag.tagFormatSimple, 3))
+    elif shape == 'setof-any':
+        f = univ.SetOf(componentType=univ.Any())
+    else:
+        f = univ.SequenceOf(componentType=univ.Any())
+    return univ.Sequence(componentType=namedtype.NamedTypes(
+        namedtype.NamedType('id', univ.Integer()),
+        namedtype.NamedType('blob', f, openType=opentype.OpenType('id', {1: inner_spec}))))
+
+
+def open_wrap(shape, inner):
+    """DER encoding of SEQUENCE {id INTEGER (1), blob <shape>} around the given inner encoding (taken as is)"""
+    if shape == 'any-explicit':
+        inner = b'\xa3' + M.length_octets(len(inner)) + inner
+    elif shape == 'setof-any':
+        inner = b'\x31' + M.length_octets(len(inner)) + inner
+    elif shape == 'seqof-any':
+        inner = b'\x30' + M.length_octets(len(inner)) + inner
+    body = b'\x02\x01\x01' + inner
+    return b'\x30' + M.length_octets(len(body)) + body
+
+
+def check_open(idx, sl, T, v, R):
+    """the same single rewrites, with the element sitting in an open type field that the decoder resolves"""
+    feats0 = CM.case_features(T, v)
+    if 'real10' in feats0 or 'any' in feats0 or 'bigstr' in feats0:
+        return
+    if M.strip_con(T)[0] == 'CHOICE':
+        return          # an untagged CHOICE has no single tag to be mapped by
+    ispec = B.to_spec(T)
+    schemas = {shape: open_schema(shape, ispec) for shape in OPEN_SHAPES}
+
+    def dec(decname, shape, data):
+        try:
+            r = CM.DECODERS[decname](data, asn1Spec=schemas[shape], decodeOpenTypes=True)
+        except Exception as e:
+            return ('exc', e)
+        return ('ok', r)
+
+    def run(ch):
+        pol = M.ChoicePolicy(ch, max_split=2, nested=True, long_len=False, perms=False, defaults=False,
+                             true_octets=TRUE_OCTETS)
+        try:
+            return M.Encoder(pol).enc(T, v)
+        except M.ModelError:
+            return None
+
+    der = M.der(T, v)
+    accept = {}
+    for decname in ('der', 'cer'):
+        for shape in OPEN_SHAPES:
+            d = dec(decname, shape, open_wrap(shape, der))
+            ok = d[0] == 'ok' and d[1][1] == b''
+            if ok:
+                # non-vacuity: the field really was resolved to the inner type
+                blob = d[1][0].getComponentByName('blob', default=None, instantiate=False)
+                if shape in ('setof-any', 'seqof-any') and blob is not None and len(blob) == 1:
+                    blob = blob.getComponentByPosition(0, default=None, instantiate=False)
+                try:
+                    ok = M.values_equal(T, B.abs_of(blob, T, ispec), v)
+                except Exception:
+                    ok = False
+            accept[(decname, shape)] = ok
+            if not ok:
+                R.extra['open.canonical_not_resolved_skipped'] += 1
+
+    def on_exec(ch, data):
+        if data is None:
+            return
+        devs = ch.deviations()
+        if not devs:
+            return
+        (pos, choice, label), = devs
+        kind = label.split(':')[0]
+        decs = ('der', 'cer') if kind == 'true' else ('der',)
+        for decname in decs:
+            for shape in OPEN_SHAPES:
+                if not accept.get((decname, shape)):
+                    continue
+                outer = open_wrap(shape, data)
+                R.evaluations += 1
+                R.nontrivial((outer, decname, 'open', shape))
+                R.features['open.rewrite:' + kind] += 1
+                d = dec(decname, shape, outer)
+                if d[0] == 'exc' and isinstance(d[1], pyerr.PyAsn1Error):
+                    continue
+                feats = feats0 | {'rewrite:' + kind, 'dec:' + decname, 'open', 'open:' + shape, 'label:' + label}
+                rec = {'slice': sl, 'T': T, 'v': v, 'bytes': outer, 'dec': decname, 'open': shape, 'rewrite': label}
+                if d[0] == 'exc':
+                    R.violation('open.leak:' + type(d[1]).__name__, rec, CM.exc_text(d[1]) + ' on ' + outer[:48].hex(),
+                                'PyAsn1Error', pyasn1_site(d[1]), feats, idx)
+                else:
+                    R.violation('open.accepted', rec, 'non-canonical %s accepted inside a resolved open type field (%s): %s'
+                                % (label, shape, outer[:48].hex()), 'PyAsn1Error', decname + '.decoder', feats, idx)
+
+    n, pts = X.explore(run, 1, on_exec)
+    R.extra['open.executions'] += n
+
+
 def raw_decode(decname, data):
     try:
         r = CM.DECODERS[decname](data)
@@ -132,6 +239,8 @@ def shard(tier, i, n, seed):
         if (idx + seed) % n != i:
             continue
         guarded(R, lambda: check_case(idx, sl, T, v, R), {'slice': sl, 'T': T, 'v': v}, CM.type_features(T), idx)
+        if sl in ('LEAF', 'OF', 'NEST') and (sl == 'LEAF' or idx % 3 == 0 or tier != 'quick'):
+            guarded(R, lambda: check_open(idx, sl, T, v, R), {'slice': sl, 'T': T, 'v': v, 'open': True}, CM.type_features(T) | {'open'}, idx)
         R.features['slice:' + sl] += 1
         if idx % 499 == seed % 499:
             R.sample({'T': M.show_type(T), 'v': v})
@@ -140,6 +249,14 @@ def shard(tier, i, n, seed):
 
 def replay(case):
     T = case['T']
+    if case.get('open'):
+        try:
+            CM.DECODERS[case['dec']](case['bytes'], asn1Spec=open_schema(case['open'], B.to_spec(T)), decodeOpenTypes=True)
+        except pyerr.PyAsn1Error:
+            return []
+        except Exception as e:
+            return [{'clause': 'open.leak', 'observed': repr(e)[:200], 'expected': 'PyAsn1Error'}]
+        return [{'clause': 'open.accepted', 'observed': 'decoded', 'expected': 'PyAsn1Error'}]
     d = CM.decode_to_abs(case['dec'], case['bytes'], T, B.to_spec(T)) if case['spec'] else raw_decode(case['dec'], case['bytes'])
     if d[0] == 'exc' and isinstance(d[1], pyerr.PyAsn1Error):
         return []
